@@ -117,6 +117,8 @@ def random_dag(rng, nmin=5, nmax=14):
         edges = multi_root(rng, n, rng.randint(2, 4))
     else:
         edges = chain(min(40, nmax * 3))
+    if not edges:
+        edges = [(1, 0)]
     m = 1 + max(max(a, b) for a, b in edges)
     # random relabelling of positions so that sorted rank is unrelated to depth
     perm = list(range(m))
